@@ -35,6 +35,9 @@ dict dispatch    `D = {"a": fa, "b": lambda: E}` (a local bound once to a litera
 lookup with default   `vars(x)` is `x.__dict__`; `if k in m: return m[k]` followed by `return d` (or the
                  else-branch / negated forms, or `m[k] if k in m else d`) is `m.get(k, d)` when d is a
                  plain name / attribute / constant (evaluating it early changes nothing).
+
+membership search   `for x in S: if x == k: break` with an `else:` suite E (and nothing else in the body, x not
+                 read afterwards) is `if k not in S: E`.
 """
 
 from __future__ import annotations
@@ -634,6 +637,47 @@ def fold_dict_lookup(tree: ast.Module) -> int:
 
     for fn in [n for n in ast.walk(tree) if isinstance(n, (ast.FunctionDef, ast.AsyncFunctionDef))]:
         fn.body = rewrite_block(fn.body)
+    if count:
+        ast.fix_missing_locations(tree)
+    return count
+
+
+def search_loop_to_membership(tree: ast.Module) -> int:
+    import copy
+
+    count = 0
+
+    def rewrite_block(block, fn_node):
+        nonlocal count
+        out = []
+        for st in block:
+            for fld in ("body", "orelse", "finalbody"):
+                sub = getattr(st, fld, None)
+                if isinstance(sub, list) and sub and isinstance(sub[0], ast.stmt) and not isinstance(st, (ast.FunctionDef, ast.AsyncFunctionDef, ast.ClassDef)):
+                    setattr(st, fld, rewrite_block(sub, fn_node))
+            for h in getattr(st, "handlers", []) or []:
+                h.body = rewrite_block(h.body, fn_node)
+            new = None
+            if isinstance(st, ast.For) and st.orelse and isinstance(st.target, ast.Name) and len(st.body) == 1 and isinstance(st.body[0], ast.If) and not st.body[0].orelse and len(st.body[0].body) == 1 and isinstance(st.body[0].body[0], ast.Break):
+                t = st.body[0].test
+                x = st.target.id
+                if isinstance(t, ast.Compare) and len(t.ops) == 1 and isinstance(t.ops[0], ast.Eq):
+                    l, r = t.left, t.comparators[0]
+                    key = r if (isinstance(l, ast.Name) and l.id == x) else (l if (isinstance(r, ast.Name) and r.id == x) else None)
+                    if key is not None and not any(isinstance(n, ast.Name) and n.id == x for n in ast.walk(key)):
+                        inside = {id(n) for n in ast.walk(st)}
+                        later = [n for n in ast.walk(fn_node) if isinstance(n, ast.Name) and n.id == x and isinstance(n.ctx, ast.Load) and id(n) not in inside and getattr(n, "lineno", 0) > st.lineno]
+                        if not later:
+                            test = ast.Compare(left=copy.deepcopy(key), ops=[ast.NotIn()], comparators=[copy.deepcopy(st.iter)])
+                            new = ast.If(test=test, body=st.orelse, orelse=[])
+                            ast.copy_location(new, st)
+                            ast.fix_missing_locations(new)
+                            count += 1
+            out.append(new if new is not None else st)
+        return out
+
+    for fn in [n for n in ast.walk(tree) if isinstance(n, (ast.FunctionDef, ast.AsyncFunctionDef))]:
+        fn.body = rewrite_block(fn.body, fn)
     if count:
         ast.fix_missing_locations(tree)
     return count
